@@ -13,16 +13,25 @@ func VerifHarness_C16_ParseDocsTags() {
 		verifAssume(tags[i] > ' ')
 	}
 	cwd := nondetAtom("cwd")
-	convs, err := ParseDocs(ParseDocsConfig{PackagePattern: []string{"./..."}, WorkingDir: cwd, BuildTags: tags})
+	// every form of package pattern
+	patterns := [][]string{{"./..."}, {"example.org/m/conv"}, {"/abs/dir/conv"}, {"/abs/dir/..."}, {"./a", "/abs/dir/conv", "example.org/m/b"}}[nondetChoice("patterns", 5)]
+	convs, err := ParseDocs(ParseDocsConfig{PackagePattern: patterns, WorkingDir: cwd, BuildTags: tags})
 	verifAssert("no-packages-no-converters", err == nil && len(convs) == 0)
-	verifAssert("one-load", verifEffectCount("golang.org/x/tools/go/packages.Load") == 1)
-	cfg := verifEffectArg("golang.org/x/tools/go/packages.Load", 0, 0).(*packages.Config)
-	verifAssert("working-dir-passed", cfg.Dir == cwd)
-	if tags != "" {
-		verifReach("tags")
-		verifAssert("tags-passed-as-build-flag", len(cfg.BuildFlags) == 2 && cfg.BuildFlags[0] == "-tags" && cfg.BuildFlags[1] == tags)
-	} else {
-		verifReach("no-tags")
-		verifAssert("no-build-flag-without-tags", len(cfg.BuildFlags) == 0)
+	loads := verifEffectCount("golang.org/x/tools/go/packages.Load")
+	verifAssert("packages-loaded", loads >= 1)
+	// every load - however the patterns are grouped - sees the tags
+	for i := 0; i < loads; i++ {
+		cfg := verifEffectArg("golang.org/x/tools/go/packages.Load", i, 0).(*packages.Config)
+		if tags != "" {
+			verifReach("tags")
+			verifAssert("tags-passed-as-build-flag", len(cfg.BuildFlags) == 2 && cfg.BuildFlags[0] == "-tags" && cfg.BuildFlags[1] == tags)
+		} else {
+			verifReach("no-tags")
+			verifAssert("no-build-flag-without-tags", len(cfg.BuildFlags) == 0)
+		}
+	}
+	if loads == 1 {
+		cfg := verifEffectArg("golang.org/x/tools/go/packages.Load", 0, 0).(*packages.Config)
+		verifAssert("working-dir-passed", cfg.Dir == cwd)
 	}
 }
